@@ -32,7 +32,7 @@ from inscripta.biocantor.io.gff3.rows import GFFRow
 from inscripta.biocantor.location import SingleInterval, EmptyLocation, Strand
 from inscripta.biocantor.parent import Parent, SequenceType
 from inscripta.biocantor.sequence import Alphabet
-from inscripta.biocantor.util.bins import bins
+from inscripta.biocantor.util.bins import bins, MAX_CHROM_SIZE
 from inscripta.biocantor.util.hashing import digest_object
 
 try:
@@ -724,8 +724,9 @@ class AnnotationCollection(AbstractFeatureIntervalCollection):
         """
         Non-optimized implementation of position query. Used when `cgranges` is not installed.
         """
-        # bins are only valid if we have start, end and completely_within
-        if completely_within and start and end:
+        # bins are only valid if we have start, end and completely_within, and only inside the binning scheme: beyond it
+        # every interval is "somewhere on the chromosome" (bin 1), which says nothing about the finer bins of its members
+        if completely_within and start and end and end < MAX_CHROM_SIZE:
             my_bins = bins(start, end, fmt="bed", one=False)
         else:
             my_bins = None
